@@ -334,8 +334,9 @@ func RunCase(k *fw.Case, cfg *Config) {
 		}
 	}
 	type done struct {
-		c   Call
-		out Outcome
+		c    Call
+		out  Outcome
+		snap map[string]interface{} // copy of the result map at the moment the call returned
 	}
 	var calls []done
 	sh := shape(rs)
@@ -380,7 +381,11 @@ func RunCase(k *fw.Case, cfg *Config) {
 		}
 		fs := Check(rs, c, out, false)
 		report(k, cfg, rs, c, out, fs, procs)
-		calls = append(calls, done{c, out})
+		snap := make(map[string]interface{}, len(out.Result))
+		for rk, rv := range out.Result {
+			snap[rk] = rv
+		}
+		calls = append(calls, done{c, out, snap})
 		if len(out.Events) > 0 {
 			k.Distinct(c.Method, c.Pool, c.B, c.N, c.M, len(c.Names), len(c.DAG), sh, evString(out.Events))
 		}
@@ -390,6 +395,22 @@ func RunCase(k *fw.Case, cfg *Config) {
 	}
 	// no late events: the part of each log that belongs to a returned call must not have grown
 	time.Sleep(200 * time.Microsecond)
+	if cfg.Holds {
+		time.Sleep(2500 * time.Microsecond) // longer than the longest hold: stragglers of a broken barrier have ended by now
+	}
+	for _, d := range calls {
+		// the result map handed out by a call is final when the call returns
+		changed := len(d.out.Result) != len(d.snap)
+		for rk, rv := range d.snap {
+			if cv, ok := d.out.Result[rk]; !ok || cv != rv {
+				changed = true
+			}
+		}
+		if changed {
+			fs := []Finding{{ClResult, fmt.Sprintf("the result map changed after the call had returned: it was %v, it is now %v", d.snap, d.out.Result)}}
+			report(k, cfg, rs, d.c, d.out, fs, procs)
+		}
+	}
 	for _, d := range calls {
 		if n := d.out.lg.Len(); n != len(d.out.Events) {
 			fs := []Finding{{ClLate, fmt.Sprintf("%d event(s) were logged after the call had returned: %s", n-len(d.out.Events), evString(d.out.lg.Snapshot()[len(d.out.Events):]))}}
